@@ -448,7 +448,8 @@ func (n *UnaryNode) Format(buf *bytes.Buffer, indent string, onNewLine bool) {
 	}
 	writeIndent(buf, indent, onNewLine)
 	buf.WriteString(n.Operator.String())
-	n.Node.Format(buf, indent, false)
+	// A unary operator binds tighter than any binary operator.
+	formatOperand(buf, indent, false, n.Node, true)
 }
 func (n *UnaryNode) SetComment(c *CommentNode) {
 	n.Comment = c
@@ -530,16 +531,22 @@ func (n *BinaryNode) String() string {
 }
 
 func (n *BinaryNode) Format(buf *bytes.Buffer, indent string, onNewLine bool) {
+	n.format(buf, indent, onNewLine, n.Parens)
+}
+
+func (n *BinaryNode) format(buf *bytes.Buffer, indent string, onNewLine bool, parens bool) {
 	if n.Comment != nil {
 		n.Comment.Format(buf, indent, onNewLine)
 		onNewLine = true
 	}
 	writeIndent(buf, indent, onNewLine)
-	if n.Parens {
+	if parens {
 		buf.WriteByte('(')
 		indent += indentStep
 	}
-	n.Left.Format(buf, indent, false)
+	// Binary operators are left-associative: a left operand needs parentheses when it binds
+	// looser than this operator, a right operand when it does not bind tighter.
+	formatOperand(buf, indent, false, n.Left, binaryOperandNeedsParens(n.Left, n.Operator, false))
 	buf.WriteByte(' ')
 	buf.WriteString(n.Operator.String())
 	if n.MultiLine {
@@ -547,10 +554,35 @@ func (n *BinaryNode) Format(buf *bytes.Buffer, indent string, onNewLine bool) {
 	} else {
 		buf.WriteByte(' ')
 	}
-	n.Right.Format(buf, indent, n.MultiLine)
-	if n.Parens {
+	formatOperand(buf, indent, n.MultiLine, n.Right, binaryOperandNeedsParens(n.Right, n.Operator, true))
+	if parens {
 		buf.WriteByte(')')
 	}
+}
+
+// binaryOperandNeedsParens reports whether the operand of a binary operator must be
+// written in parentheses for the text to parse back to the same tree.
+// Trees built by the parser carry the Parens flag wherever it is needed,
+// trees built in code or decoded from JSON do not.
+func binaryOperandNeedsParens(operand Node, op TokenType, right bool) bool {
+	b, ok := operand.(*BinaryNode)
+	if !ok || !IsExprOperator(b.Operator) || !IsExprOperator(op) {
+		return false
+	}
+	if right {
+		return precedence[b.Operator] <= precedence[op]
+	}
+	return precedence[b.Operator] < precedence[op]
+}
+
+// formatOperand formats the operand of a unary or binary operator,
+// adding parentheses around a binary operand that needs them and does not have them.
+func formatOperand(buf *bytes.Buffer, indent string, onNewLine bool, operand Node, needParens bool) {
+	if b, ok := operand.(*BinaryNode); ok && needParens && !b.Parens {
+		b.format(buf, indent, onNewLine, true)
+		return
+	}
+	operand.Format(buf, indent, onNewLine)
 }
 func (n *BinaryNode) SetComment(c *CommentNode) {
 	n.Comment = c
